@@ -158,7 +158,7 @@ func VerifC06InVsDisjunction() {
 func VerifC06HashInVsIn() {
 	lt := nd.Pick("xtype", 3)
 	n := nd.IntRange("n", 1, 2) // (3 literals left final queries undecided at the thorough tier)
-	lim := int64(10000) // (10^5 left three final queries undecided at the thorough tier)
+	lim := int64(10000)         // (10^5 left three final queries undecided at the thorough tier)
 	x, xc := c06Left(lt)
 	switch v := xc.(type) {
 	case int64:
